@@ -633,14 +633,23 @@ impl ToplevelDefinition {
 
     pub(crate) fn apply_tagging_environment(&mut self, environment: &TaggingEnvironment) {
         if let ToplevelDefinition::Type(ty) = self {
-            Self::apply_tagging_environment_to_tag(&mut ty.tag, environment);
+            Self::apply_tagging_environment_to_tag(&mut ty.tag, &ty.ty, environment);
             Self::apply_tagging_environment_to_type(&mut ty.ty, environment);
         }
     }
 
-    fn apply_tagging_environment_to_tag(tag: &mut Option<AsnTag>, env: &TaggingEnvironment) {
+    fn apply_tagging_environment_to_tag(
+        tag: &mut Option<AsnTag>,
+        tagged: &ASN1Type,
+        env: &TaggingEnvironment,
+    ) {
         *tag = tag.as_ref().map(|t| AsnTag {
-            environment: env + &t.environment,
+            // ITU-T X.680 section 31.2.7 clause c: a tagged open type is always tagged explicitly
+            environment: if matches!(tagged, ASN1Type::Any) {
+                TaggingEnvironment::Explicit
+            } else {
+                env + &t.environment
+            },
             tag_class: t.tag_class,
             id: t.id,
         });
@@ -651,15 +660,15 @@ impl ToplevelDefinition {
     fn apply_tagging_environment_to_type(ty: &mut ASN1Type, env: &TaggingEnvironment) {
         match ty {
             ASN1Type::Sequence(s) | ASN1Type::Set(s) => s.members.iter_mut().for_each(|m| {
-                Self::apply_tagging_environment_to_tag(&mut m.tag, env);
+                Self::apply_tagging_environment_to_tag(&mut m.tag, &m.ty, env);
                 Self::apply_tagging_environment_to_type(&mut m.ty, env);
             }),
             ASN1Type::Choice(c) => c.options.iter_mut().for_each(|o| {
-                Self::apply_tagging_environment_to_tag(&mut o.tag, env);
+                Self::apply_tagging_environment_to_tag(&mut o.tag, &o.ty, env);
                 Self::apply_tagging_environment_to_type(&mut o.ty, env);
             }),
             ASN1Type::SequenceOf(s) | ASN1Type::SetOf(s) => {
-                Self::apply_tagging_environment_to_tag(&mut s.element_tag, env);
+                Self::apply_tagging_environment_to_tag(&mut s.element_tag, &s.element_type, env);
                 Self::apply_tagging_environment_to_type(&mut s.element_type, env);
             }
             _ => (),
